@@ -227,6 +227,9 @@ def gen_cases(tier, seed):
             if 'subs' not in t and rng.random() < 0.12:
                 t['subs'] = rng.choice([None, [{'only': ['on_done']}], [{'only': ['on_progress']}]])
     rng.shuffle(cases)
+    from ..gen import sprinkle
+
+    sprinkle(cases, seed)
     return cases
 
 
